@@ -53,7 +53,7 @@ def model():
 class BodyFailed(Exception): pass
 
 ENDINGS = ['commit', 'rollback', 'error']
-KINDS = ['loaded', 'created', 'modified', 'deleted', 'reference-only']
+KINDS = ['loaded', 'created', 'created-never-connected', 'modified', 'deleted', 'reference-only']
 
 
 def leftover(M, ending, strict, kind):
@@ -66,17 +66,24 @@ def leftover(M, ending, strict, kind):
             elif kind == 'created':
                 o = M.G(name='tmp_%s_%s' % (ending, strict), data={'k': [1]})
                 M.I(g=o, n=5)
+            elif kind == 'created-never-connected':
+                # the session only creates objects: no query, no flush before the end => the cache never acquires a connection
+                o = M.G(name='tmp_nc_%s_%s' % (ending, strict), data={'k': [1]})
+                box['o'] = o; box['i'] = M.I(g=o, n=6); box['t'] = M.T(label='tmp_nc')
+                if ending == 'rollback': orm.rollback()
+                elif ending == 'error': raise BodyFailed()
             elif kind == 'modified':
                 o = M.G.get(name='g1'); o.name = 'g1'; o.data['k'].append(2); o.data['k'].pop()
             elif kind == 'deleted':
                 o = M.G(name='todelete'); orm.flush(); o.delete()
             else:
                 i = M.I.get(n=1); o = i.g            # G reached as an unloaded reference (seed)
-            box['o'] = o
-            box['i'] = M.I.select().first()
-            box['t'] = M.T.select().first()
-            if ending == 'rollback': orm.rollback()
-            elif ending == 'error': raise BodyFailed()
+            if 'o' not in box:
+                box['o'] = o
+                box['i'] = M.I.select().first()
+                box['t'] = M.T.select().first()
+                if ending == 'rollback': orm.rollback()
+                elif ending == 'error': raise BodyFailed()
     except BodyFailed:
         pass
     # keep the database as it was for the next case
@@ -84,6 +91,7 @@ def leftover(M, ending, strict, kind):
         for x in M.G.select(lambda g: g.name.startswith('tmp_') or g.name == 'todelete'):
             for it in list(x.items): it.delete()
             x.delete()
+        for x in M.T.select(lambda t: t.label == 'tmp_nc'): x.delete()
     return box
 
 
